@@ -97,11 +97,11 @@ def call(w, op, nreq):
     if op == "bulkget":
         return drive(c.bulkget([OID(oids[0])], [OID(o) for o in oids[1:]] or [OID(oids[0])], max_list_size=2))
     if op == "walk-warn":
-        return drive_agen(c.walk(OID(ROOT), errors="warn"), limit=100)
+        return drive_agen(c.walk(OID(ROOT), errors=rig.lenient()), limit=100)
     if op == "multiwalk-warn":
-        return drive_agen(c.multiwalk([OID(ROOT), OID((1, 3, 6, 1, 2, 1, 6))], errors="warn"), limit=100)
+        return drive_agen(c.multiwalk([OID(ROOT), OID((1, 3, 6, 1, 2, 1, 6))], errors=rig.lenient()), limit=100)
     if op == "pywalk-warn":
-        return drive_agen(p.walk(rig.oid_s(ROOT), errors="warn"), limit=100)
+        return drive_agen(p.walk(rig.oid_s(ROOT), errors=rig.lenient()), limit=100)
     if op == "walk":
         return drive_agen(c.walk(OID(ROOT)), limit=100)
     if op == "pywalk":
@@ -117,22 +117,28 @@ def call(w, op, nreq):
     raise ValueError(op)
 
 
-def run_case(R, level, op, status, index, nvb, when, nreq=1):
+def run_case(R, level, op, status, index, nvb, when, nreq=1, reboot=False):
     if level == "v1" and op in ("bulkget", "bulkwalk", "bulktable"):
         return
     w = World(level, DB)
     w.prime()
     w.seam.budget = 40
+    if reboot:
+        # the device rebooted since discovery: the first attempt is answered by an
+        # authentic notInTimeWindow report, the error travels in the answer to the
+        # request the client re-sends after re-synchronising
+        w.agent.reboot()
+        R.mon["errors_after_resync"] += 1
     hook = make_hook(status, index, nvb, when)
     w.agent.pdu_hook = hook
-    case = {"level": level, "op": op, "status": status, "index": index, "nvb": nvb, "when": when, "nreq": nreq}
+    case = {"level": level, "op": op, "status": status, "index": index, "nvb": nvb, "when": when, "nreq": nreq, "reboot": reboot}
     try:
         res = rig.outcome(lambda: call(w, op, nreq))
     except rig.BudgetExceeded:
         R.violation(case, "request budget exceeded", None)
         return
     applied = hook.state["applied"]
-    fp = ("c08", op, level, status, index, nvb, when, nreq)
+    fp = ("c08", op, level, status, index, nvb, when, nreq, reboot)
     R.case(fp, applied is not None, sample=case if R.evaluations % 1501 == 0 else None)
     if applied is None:
         R.mon["error_not_reached"] += 1
@@ -236,9 +242,16 @@ def run(R):
             if not R.time_left():
                 return
             run_case(R, level, op, status, index, nvb, when, nreq)
+    for level in rig.AUTH_LEVELS:
+        for op in SINGLE_OPS + ("walk", "bulkwalk"):
+            for status, index in ((1, 0), (2, 1), (5, 1), (13, 2), (18, 1), (19, 1), (-1, 0)):
+                k += 1
+                if not R.mine(k):
+                    continue
+                run_case(R, level, op, status, index, None, 0, 1, reboot=True)
     R.exhaustive = full
 
 
 def replay(R, v):
     c = v["case"]
-    run_case(R, c["level"], c["op"], c["status"], c["index"], c["nvb"], c["when"], c.get("nreq", 1))
+    run_case(R, c["level"], c["op"], c["status"], c["index"], c["nvb"], c["when"], c.get("nreq", 1), reboot=c.get("reboot", False))
